@@ -32,17 +32,20 @@ ASSUMPTIONS = [
     "model, density, antiderivative and cost functions are self-contained def-sources using numpy only (kafe2 re-executes the stored source in a namespace that offers np/scipy; closures and other globals are outside the statement)",
     "assigning a value to a fixed parameter and limits that exclude the current value are not generated (meaning left open, DESIGN 6.2)",
     "stored fit results are compared immediately after loading and again after a refit of both objects; between, only point observables (cost, model, totals) are compared",
-    "refits use iminuit (scipy with limits is the separate finding D30) and are compared with the fit tolerances of DESIGN 3.4",
+    "refits use iminuit (scipy with limits is the separate finding D30) and are compared with the fit tolerances of DESIGN 3.4; numerical results of a refit are compared only when the refit of the ORIGINAL object is well-posed (finite, relative parameter uncertainties <= 15 %), its uncertainties only after a real minimisation (object saved before a fit) inside the chi2/ndf window 0.3..3; ill-posed refits still have to run and agree in did_fit and ndf",
+    "parameter_errors of a fit that was never fitted are initial step sizes, not stored results: only their availability is compared",
+    "formatted report texts are compared modulo one unit of the last printed digit (rounding ties, DESIGN 6.5)",
     "the run-private temporary directory is on a local file system; the minute-resolution time stamp in the preface comment is excluded by stripping comment lines",
     "MultiFit and cost-function objects inherit to_file but are not among the serialisable kinds of the statement and are not generated",
 ]
 
-# tolerances (DESIGN 3.4): exact-path quantities 1e-9 relative to the scale of the enclosing array; measured on the
-# repaired tree: every such observable of the quick and thorough products is bit-identical (max deviation 0) except
-# relative sources after a data scale of 1e-9 (3e-16); YAML floats are written with repr() and round-trip exactly.
+# tolerances (DESIGN 3.4).  Exact-path quantities: 1e-9 relative to the scale of the enclosing array.  Measured on the
+# repaired tree (thorough tier, 1.1e6 comparisons): 43 613 comparisons not bit-identical, all within 1e-13 (30 above
+# 1e-14); YAML floats are written with repr() and round-trip exactly.  Margin >= 1e4.
 RTOL_EXACT = 1e-9
-# refit of two equal problems from the same start point (iminuit): measured worst |dp|/sigma 2.1e-3, |dcost| 3e-8,
-# |dsigma|/sigma 2.4e-3 on the thorough product -> 0.03 sigma, 1e-3 absolute, 5e-2 relative (DESIGN 3.4 values)
+# refit of two equal problems from the same start point (iminuit), thorough tier, 6 636 well-posed refit pairs:
+# |dp|/sigma <= 3e-3 (8 pairs above 3e-4), |dcost| <= 1e-5, |dsigma|/sigma <= 7.7e-4 inside the chi2/ndf window
+# -> tolerances 0.03 sigma, 1e-3 absolute, 5e-2 relative (the DESIGN 3.4 values; margins >= 10x, 100x, 65x)
 REFIT_DP_SIGMA = 0.03
 REFIT_DCOST = 1e-3
 REFIT_DERR_REL = 5e-2
@@ -118,11 +121,15 @@ def model_specs(tier, v):
 
 
 def modelfunc_specs(tier, v):
-    return [dict(kind="modelfunc", mf=k, fmt=fmt, v=v) for k in W.MODEL_FUNCTIONS for fmt in (False, True)]
+    return [dict(kind="modelfunc", mf=k, fmt=fmt, v=v) for k in W.MODEL_FUNCTIONS for fmt in (0, 1, 2)]
 
 
 def constraint_specs(tier, v):
     return [dict(kind="constraint", c=k, v=v) for k in W.CONSTRAINTS]
+
+
+def formatter_specs(tier, v):
+    return [dict(kind="formatter", f=k, v=v) for k in W.FORMATTERS]
 
 
 PSTATES = [
@@ -219,6 +226,7 @@ def fit_specs(tier, v):
             for st in STATES:
                 add(ftype=ft, model=model, cost=default_cost, sources=base_mix, pstate="fix+lim+con-simple-rel", state=st, labels=True)
                 add(ftype=ft, model=model, cost=default_cost, sources=base_mix, pstate="none", state=st, labels=True)
+                add(ftype=ft, model=model, cost=default_cost, sources=base_mix, pstate="none", state=st, labels=2)
             if full:
                 for mix in mixes:
                     for ps in ("fix+lim+con-simple-rel", "con-matrix-cov-rel"):
@@ -227,7 +235,7 @@ def fit_specs(tier, v):
     # model functions given as library name / SymPy string inside a fit
     for model in STRING_MODELS:
         for st in STATES:
-            for labels in (False, True):
+            for labels in (False, True, 2):
                 add(ftype="xy", model=model, cost="chi2", sources=[["y-abs", True]], pstate="none", state=st, labels=labels)
             add(ftype="xy", model=model, cost="chi2", sources=[["y-abs", True], ["y-rel-model", True]], pstate="fix+lim+con-simple-rel", state=st, labels=False)
     # histogram specials: set_bins data, bin evaluation variants, density switch
@@ -300,11 +308,12 @@ ENUM = collections.OrderedDict(
         ("model", model_specs),
         ("modelfunc", modelfunc_specs),
         ("constraint", constraint_specs),
+        ("formatter", formatter_specs),
         ("fit", fit_specs),
         ("history", history_specs),
     ]
 )
-SHARDS = dict(container=6, model=4, modelfunc=1, constraint=1, fit=48, history=8)
+SHARDS = dict(container=6, model=4, modelfunc=1, constraint=1, formatter=1, fit=48, history=8)
 
 
 def jobs(tier, seed):
@@ -326,11 +335,18 @@ DETCHECK_JOB = 0
 
 def bound(tier, seed):
     return (
-        "complete products per object kind (containers: 5 container configurations x all single sources, single disabled sources and ordered pairs of core kinds x labels; "
-        "parametric models: 4 types x sources x 2 parameter points x labels + bin evaluation variants; 11 model functions x 2 formatter states; 7 constraints; "
-        "fits: 5 types x [source mixes x 4 states] + [14 parameter decorations x 4 states] + [cost identifiers x 4 states] + labels + histogram / tiny-magnitude / "
-        "asymmetric-on-save / scipy specials + save_state/load_state 4 decorations x 4 states); write sequences of length <= %s over a pool of 10 objects on one path; valuation(s) %s"
-        % ("3 (full pool)" if tier == "thorough" else "2 (full pool), 3 over a core pool of 4", (seed % 3) if tier == "quick" else "0,1,2")
+        "complete products per object kind - containers: 6 container configurations (indexed, xy, histogram filled / set_bins with underflow != overflow / equidistant, unbinned) "
+        "x {no source, every source kind alone, every kind disabled next to an enabled one, ordered pairs%s of core kinds with none / one disabled} x labels, plus tiny-magnitude data; "
+        "parametric models: 4 types x {every kind alone, every kind disabled} x 2 parameter points x labels + 5 bin-evaluation variants; 11 model functions x 3 formatter states; "
+        "8 formatter objects; 7 constraints; fits: 5 types x ([all source mixes x 4 states] + [13 parameter decorations x 4 states] + [all cost identifiers x 4 states x {one source, none}] "
+        "+ [3 label levels x 4 states]%s) + string model functions, histogram specials (set_bins data, bin evaluation, density), tiny-magnitude data, asymmetric errors on save, scipy, "
+        "iterative dynamic-error algorithm, save_state/load_state (4 decorations x 4 states x 5 types); write sequences of length <= %s on one path over a pool of 10 objects; valuation(s) %s"
+        % (
+            " and triples" if tier == "thorough" else "",
+            " for every model" if tier == "thorough" else " for the first model of a type, a reduced product (2 states, 3 decorations) for further models",
+            "3" if tier == "thorough" else "2 (full pool) and 3 (core pool of 4)",
+            (seed % 3) if tier == "quick" else "0,1,2",
+        )
     )
 
 
@@ -352,16 +368,18 @@ def sig_of(spec):
             "|bineval=" + spec["bin_evaluation"] if spec.get("bin_evaluation") else "",
         )  # fmt: skip
     if k == "modelfunc":
-        return "modelfunc|%s|fmt=%d" % (spec["mf"], bool(spec.get("fmt")))
+        return "modelfunc|%s|fmt=%d" % (spec["mf"], int(spec.get("fmt") or 0))
     if k == "constraint":
         return "constraint|%s" % spec["c"]
+    if k == "formatter":
+        return "formatter|%s" % spec["f"]
     if k == "fit":
         extra = ""
         for key in ("hist_data", "bin_evaluation", "density", "variant", "minimizer", "dea", "save", "flow"):
             if spec.get(key) is not None:
                 extra += "|%s=%s" % (key, spec[key])
         return "fit|%s|%s|cost=%s|src=%s|par=%s|state=%s|labels=%d%s" % (
-            spec["ftype"], spec["model"], spec.get("cost") or "default", _src_sig(spec.get("sources", [])), spec.get("pstate") or "none", spec.get("state", "unfit"), bool(spec.get("labels")), extra,
+            spec["ftype"], spec["model"], spec.get("cost") or "default", _src_sig(spec.get("sources", [])), spec.get("pstate") or "none", spec.get("state", "unfit"), int(spec.get("labels") or 0), extra,
         )  # fmt: skip
     if k == "history":
         return "history|" + ";".join("w:" + s for s in spec["seq"]) + ";r"
@@ -372,6 +390,8 @@ def nontrivial(spec):
     k = spec["kind"]
     if k in ("constraint", "history"):
         return True
+    if k == "formatter":
+        return not spec["f"].endswith(("base", "indexed", "parameter"))
     if k == "modelfunc":
         return True
     if k == "container":
@@ -460,6 +480,8 @@ def _observe(kind, obj):
         return W.observe_modelfunc(obj)
     if kind == "constraint":
         return W.observe_constraint(obj)
+    if kind == "formatter":
+        return W.observe_formatter(obj)
     if kind == "fit":
         o = W.observe_fit_static(obj)
         W.observe_fit_point(obj, "saved", o)
@@ -689,7 +711,11 @@ def _compare_refit(ra, rb, rec, compare_errors=True):
         _bucket(res, "refit:cost", abs(ra["cost"] - rb["cost"]) / (REFIT_DCOST + 1e-9 * abs(ra["cost"])))
     if not ok:
         rec.add("refit:cost", ra["cost"], rb["cost"])
-    if not compare_errors:
+    g = ra.get("gof_per_ndf")
+    if not compare_errors or isinstance(g, tuple) or (g is not None and not (0.3 <= g <= 3.0)):
+        # uncertainties are compared only where they are numerically meaningful: a real minimisation (see _drive_fits)
+        # of a problem inside the chi2/ndf window of DESIGN 3.4 (outside it, e.g. x-cov alone with chi2/ndf = 65, the
+        # numerical covariance of two equal minimisations scatters by up to 1.8 %: measured)
         return
     ok = len(ea) == len(eb) and all((x == y) or (x != x and y != y) or abs(x - y) <= REFIT_DERR_REL * max(abs(x), abs(y)) for x, y in zip(ea, eb))
     note("errors", ok)
@@ -841,8 +867,12 @@ def _simpler(spec):
         out.append(dict(spec, pars="P0"))
     if spec.get("labels"):
         out.append(dict(spec, labels=False))
+        if spec["labels"] == 2:
+            out.append(dict(spec, labels=True))
     if spec.get("fmt"):
-        out.append(dict(spec, fmt=False))
+        out.append(dict(spec, fmt=0))
+        if spec["fmt"] == 2:
+            out.append(dict(spec, fmt=1))
     src = spec.get("sources") or []
     for i in range(len(src)):
         out.append(dict(spec, sources=src[:i] + src[i + 1 :]))
@@ -941,7 +971,9 @@ def vacuity_guards(tot, tier):
     yield "fits with a model-referenced source", tot.facts.get("fit:model-referenced-source", 0) > 0
     yield "model functions and constraints explored", tot.facts.get("kind:modelfunc", 0) > 0 and tot.facts.get("kind:constraint", 0) > 0
     yield "write/write/read histories explored", tot.facts.get("kind:history", 0) > 0
-    yield "refits compared", any(k[1] == "refit:values" for k in tot.outcomes if isinstance(k, tuple))
+    yield "at least 300 well-posed refit pairs compared in values and cost", tot.outcomes.get(("fit", "refit:values", "ok"), 0) + tot.outcomes.get(("fit", "refit:values", "MISMATCH"), 0) >= 300
+    yield "at least 100 refit pairs compared in uncertainties", tot.outcomes.get(("fit", "refit:errors", "ok"), 0) + tot.outcomes.get(("fit", "refit:errors", "MISMATCH"), 0) >= 100
+    yield "second-cycle documents compared for every kind", all(any(k[0] == kind and k[1] == "cycle2:yaml" for k in tot.outcomes if isinstance(k, tuple)) for kind in ("container", "model", "modelfunc", "constraint", "fit"))
     yield "more than 100 outcome classes", len(tot.outcomes) > 100
 
 
